@@ -1,7 +1,7 @@
 (* C04 - logical/shape-based components compose by conformance, not by leaked results. *)
 From Coq Require Import List NArith ZArith Bool.
 From Verif Require Import Base.SetList Base.Terms Base.Vocab Paths.Path Shapes.AST Shapes.Leaf Shapes.Eval
-  Shapes.EvalProofs Shapes.AbortProofs Shapes.LeakProofs.
+  Shapes.EvalProofs Shapes.AbortProofs Shapes.LeakProofs Shapes.ListsProofs.
 Import ListNotations.
 
 (* A node conforms to a referenced shape exactly when validating it against that shape
@@ -64,3 +64,31 @@ Example C04_nonvacuous :
   validate_impl0 default_opts [] [(IRI 1, IRI 50, IRI 2); (IRI 1, IRI 50, IRI 3)] [TOP; Q; OR1; NOT1; L1; L2]
   = Ok (false, [VR (IRI 1) None (Some (IRI 50)) sh_QualifiedMinCountConstraintComponent (BN 1) t_Info [] []]).
 Proof. vm_compute. reflexivity. Qed.
+
+(* ---- A shape may carry several sh:or / sh:and / sh:xone lists: each is a constraint of its own
+   (Shapes/ListsProofs.v). The answer over l :: ls is the answer over [l] together with the answer
+   over ls - conforming iff both are, reporting the results of both: a satisfied list never hides a
+   later one, wherever it stands. ---- *)
+Theorem C04_or_lists_are_separate_constraints : forall trig W nested g E s fvs ep l ls r1 r2,
+  evalc trig W nested g E s fvs ep (COr [l]) = Ok r1 -> evalc trig W nested g E s fvs ep (COr ls) = Ok r2 ->
+  evalc trig W nested g E s fvs ep (COr (l :: ls)) = Ok (fst r1 && fst r2, snd r1 ++ snd r2).
+Proof. exact ListsProofs.or_lists_split. Qed.
+Print Assumptions C04_or_lists_are_separate_constraints.
+
+Theorem C04_and_lists_are_separate_constraints : forall trig W nested g E s fvs ep l ls r1 r2,
+  evalc trig W nested g E s fvs ep (CAnd [l]) = Ok r1 -> evalc trig W nested g E s fvs ep (CAnd ls) = Ok r2 ->
+  evalc trig W nested g E s fvs ep (CAnd (l :: ls)) = Ok (fst r1 && fst r2, snd r1 ++ snd r2).
+Proof. exact ListsProofs.and_lists_split. Qed.
+Print Assumptions C04_and_lists_are_separate_constraints.
+
+Theorem C04_xone_lists_are_separate_constraints : forall trig W nested g E s fvs ep l ls r1 r2,
+  evalc trig W nested g E s fvs ep (CXone [l]) = Ok r1 -> evalc trig W nested g E s fvs ep (CXone ls) = Ok r2 ->
+  evalc trig W nested g E s fvs ep (CXone (l :: ls)) = Ok (fst r1 && fst r2, snd r1 ++ snd r2).
+Proof. exact ListsProofs.xone_lists_split. Qed.
+Print Assumptions C04_xone_lists_are_separate_constraints.
+
+Theorem C04_every_or_list_must_hold : forall trig W nested g E s fvs ep l ls r1 r2 r,
+  evalc trig W nested g E s fvs ep (COr [l]) = Ok r1 -> evalc trig W nested g E s fvs ep (COr ls) = Ok r2 ->
+  evalc trig W nested g E s fvs ep (COr (l :: ls)) = Ok r -> fst r = true -> fst r1 = true /\ fst r2 = true.
+Proof. exact ListsProofs.or_lists_all_must_hold. Qed.
+Print Assumptions C04_every_or_list_must_hold.
